@@ -428,6 +428,7 @@ def run(ctx):
                               exprs, per_file=max(1, len(exprs) // 16 + 1), scope_open='Open Scope Q_scope.')
     from scipy import stats
     n_agree = 0
+    loose = 0
     for (mi, m, spec, cols, lab, kind, items, n, case_seed, R, in_scope, tbl), o in zip(meta, outs):
         name = f'{mi}:{kind}:{"/".join(str(k) for k, _ in items)}:{n}'
         if o is None:
@@ -474,6 +475,7 @@ def run(ctx):
                     means, cov, size = R['cap'].mvn[-1]
                     S = m.correlation
                     tol = lin_tol(S.loc[drawn, idx].to_numpy(), S.loc[idx, idx].to_numpy(), vals)
+                    loose += tol > 1e-6
                     m_mu = np.array([float(qval(q)) for q in mu])
                     m_Sb = np.array([[float(qval(q)) for q in r] for r in Sb]).reshape(len(c1), len(c1))
                     if means.shape != m_mu.shape or not np.all(np.abs(means - m_mu) <= 1e-9 * (1 + np.abs(m_mu)) + tol):
@@ -521,5 +523,6 @@ def run(ctx):
                           f'(columns {cols}, {spec["cfg"]}): ' + '; '.join(problems)[:600],
                           {'model_spec': spec, 'container': kind, 'conditions': items, 'num_rows': n, 'problems': problems,
                            'repro': repro_generic(spec, n, kind, items, case_seed)})
+    ctx.extra['cases_with_linear_algebra_tolerance_above_1e-6 (ill-conditioned conditioning block)'] = int(loose)
     ctx.extra['cases_agreeing'] = n_agree
     ctx.extra['cases_compared'] = len(meta)
